@@ -106,7 +106,7 @@ pub fn mix64(mut x: u64) -> u64 {
 // ------------------------------------------------------------------------------------------
 // keys and values
 // ------------------------------------------------------------------------------------------
-pub trait KeyT: Hash + Eq + Clone + Send + Sync + serde::Serialize + serde::de::DeserializeOwned + 'static {
+pub trait KeyT: Hash + Eq + Clone + Send + Sync + serde::Serialize + serde::de::DeserializeOwned + for<'a> From<&'a Self> + 'static {
     const DROP: bool;
     fn mk(id: u64, stamp: u64) -> Self;
     fn id(&self) -> u64;
@@ -173,6 +173,14 @@ impl Clone for Kd {
 }
 impl Drop for Kd {
     fn drop(&mut self) { drop_serial('K', self.serial, self.id, self.stamp) }
+}
+/// `entry_ref(&k)` builds the stored key with `K::from(&k)`: a new tracked object with the same
+/// id and stamp.
+impl From<&Kd> for Kd {
+    fn from(k: &Kd) -> Kd { Kd::mk(k.id, k.stamp) }
+}
+impl From<&Kp> for Kp {
+    fn from(k: &Kp) -> Kp { *k }
 }
 
 /// Value with drop glue (tracked).
